@@ -138,6 +138,46 @@ def rand_mega(rng, nstructs):
     return sch
 
 
+def rpc_leg(chk):
+    """schemas with services: the rpc wrapper types the generator adds must compile and encode canonically (Rpc.tla)"""
+    res = tlc.run("Gen_Rpc", workdir=chk.workdir, env={}, timeout=900, heap="2g")
+    chk.add_tlc(res, "Gen_Rpc")
+    schemas = [o for o in res.out if o["kind"] == "schema"]
+    n = 0
+    for si, so in enumerate(sorted(schemas, key=lambda o: json.dumps(o["schema"], sort_keys=True))):
+        base = abs_for_text(glue.strip_gen(so["schema"]))
+        ext = abs_for_text(glue.strip_gen(so["extended"]))
+        cases = sorted([c for c in res.out if c["kind"] == "case" and c["services"] == so["schema"]["services"]],
+                       key=lambda c: json.dumps(c, sort_keys=True))
+        out = os.path.join(chk.workdir, "rpc%d" % si)
+        st, exe, text = build_schema(base, out)
+        n += 1
+        chk.count(1)
+        svc = "+".join(s["name"] for s in base["services"])
+        if st != "ok":
+            chk.violation("cpp:%s:services[%s]" % (st, svc), {"mode": "G", "schema_text": text, "info": exe})
+            continue
+        lines = []
+        for c in cases:
+            t = {"k": "struct", "name": c["struct"]}
+            lines.append("SE %s %s" % (c["struct"], " ".join(cppdriver.val_tokens(ext, t, c["value"], False))))
+            lines.append("SD %s %s" % (c["struct"], hexs(c["bytes"])))
+        ans = cppdriver.run(exe, lines)
+        for i, c in enumerate(cases):
+            chk.count(2, traces=2)
+            chk.distinct("rpc" + json.dumps([c["struct"], c["value"]], sort_keys=True))
+            se = parse_enc(ans[2 * i])
+            sd = parse_dec(ext, c["struct"], ans[2 * i + 1], False)
+            ctx = {"mode": "G", "services": base["services"], "wrapper": c["struct"], "value": c["value"], "canonical_bytes": c["bytes"]}
+            if se != ("ok", c["bytes"]):
+                chk.violation("cpp.static.encode:rpc-wrapper:%s" % (se[0] if se[0] != "ok" else "bytes-differ"), dict(ctx, observed=ans[2 * i]))
+            if sd != ("ok", c["value"]):
+                chk.violation("cpp.static.decode:rpc-wrapper:%s" % (sd[0] if sd[0] != "ok" else "value-differs"), dict(ctx, observed=ans[2 * i + 1]))
+        shutil.rmtree(out, ignore_errors=True)
+    chk.notes["rpc_schemas"] = n
+    return n
+
+
 def run_codec_check(pid, tier, seed):
     chk = core.Check(pid, tier, seed, "model_checking")
     rng = random.Random(seed)
@@ -158,6 +198,8 @@ def run_codec_check(pid, tier, seed):
         chk.notes.setdefault("cases_per_program", []).append(len(cases))
         run_codec(chk, sch, exe, cases, pid, "G")
         shutil.rmtree(out, ignore_errors=True)
+    if pid == "C03":
+        programs += rpc_leg(chk)
     # (T) random programs far outside the MC bounds, each value judged by Trace_Wire
     nprog, nst, nval = (2, 25, 4) if tier == "quick" else (16, 40, 8)
     jobs = []
